@@ -19,7 +19,7 @@ func init() {
 		Meta: report.Meta{
 			Property: "C20",
 			Rule: "Q: explicit-state breadth-first search over container.Queue[int] with operations {Enqueue(next sequence number), Dequeue, Peek, Size}, states keyed by a reflective dump with payloads renumbered relative to the oldest live element (sound by parametricity of Queue[T]), " +
-				"every reachable configuration with capacity <= 32 expanded (two growths, wrapped buffers included); K: the same for container.Stack[int] with {Push, PushAll(2), Pop, Peek, Size, Clear} up to 7 elements; every transition compared with a slice model (returned values, sizes, panics only on empty); " +
+				"every reachable configuration holding <= 136 (quick) / 300 (thorough) elements expanded (capacities 8..256 / 512: every growth with every position of the head, wrapped buffers included); K: the same for container.Stack[int] with {Push, PushAll(2), Pop, Peek, Size, Clear} up to 140 / 600 elements, to closure, keys include the capacity of the backing array; every transition compared with a slice model (returned values, sizes, panics only on empty) and followed by draining the container against the model (its whole observable state); " +
 				"T: the token stream of the indentation-aware lexer (parser.NewYarnSpinnerLexer drained through CommonTokenStream.Fill) on every byte string of length <=4 (quick) / 5 (thorough) over a 20-symbol alphabet reaching every lexer mode, raw and inside a node body, and on every line structure of <=4 (quick) / 5 (thorough) lines with indents from {0,1,2,4,8 spaces, tab, 2 tabs} x line kinds {text, option, blank, whitespace-only, comment, command, ===}; " +
 				"oracle: running INDENT-DEDENT count never negative, zero at EOF, exactly one EOF and it is last; a case is one container state x operation, or one lexer input; non-trivial = container holds >= 1 element / input has an indented line",
 			StatesMean:  "distinct container states by reflective dump (Q, K) plus distinct lexer inputs (T); transitions = container operations compared with the model / token streams checked",
@@ -88,6 +88,52 @@ func applyQueue(hist []qop) (q *container.Queue[int], model []int, seq int, mism
 	return q, model, seq, ""
 }
 
+// drainQueue empties q and compares what comes out with the model (the complete observable state of a queue).
+func drainQueue(q *container.Queue[int], model []int) string {
+	var mm string
+	if p := guard(func() {
+		if n := q.Size(); n != len(model) {
+			mm = fmt.Sprintf("Size is %d, the queue holds %d elements (%v)", n, len(model), model)
+			return
+		}
+		for i, want := range model {
+			if got := q.Dequeue(); got != want {
+				mm = fmt.Sprintf("draining the queue: element %d is %d, first-in-first-out order gives %d (queue %v)", i, got, want, model)
+				return
+			}
+		}
+		if n := q.Size(); n != 0 {
+			mm = fmt.Sprintf("Size is %d after every element was dequeued", n)
+		}
+	}); p != nil {
+		return fmt.Sprintf("draining the queue %v panicked: %v", model, p)
+	}
+	return mm
+}
+
+// drainStack: the same for a stack.
+func drainStack(s *container.Stack[int], model []int) string {
+	var mm string
+	if p := guard(func() {
+		if n := s.Size(); n != len(model) {
+			mm = fmt.Sprintf("Size is %d, the stack holds %d elements (%v)", n, len(model), model)
+			return
+		}
+		for i := len(model) - 1; i >= 0; i-- {
+			if got := s.Pop(); got != model[i] {
+				mm = fmt.Sprintf("emptying the stack: got %d, last-in-first-out order gives %d (stack %v)", got, model[i], model)
+				return
+			}
+		}
+		if n := s.Size(); n != 0 {
+			mm = fmt.Sprintf("Size is %d after every element was popped", n)
+		}
+	}); p != nil {
+		return fmt.Sprintf("emptying the stack %v panicked: %v", model, p)
+	}
+	return mm
+}
+
 func opsString(hist []qop) string {
 	var b strings.Builder
 	for _, o := range hist {
@@ -134,7 +180,10 @@ func runQueueBFS(ctx *report.Ctx, maxLive int) {
 					continue
 				}
 				h := append(append([]qop{}, nd.hist...), op)
-				_, _, _, mm := applyQueue(h)
+				q2, model2, _, mm := applyQueue(h)
+				if mm == "" {
+					mm = drainQueue(q2, model2) // the whole observable state after the transition
+				}
 				transitions++
 				ctx.AddEvals(1, b2i(len(model) > 0))
 				if mm != "" && mm != "END" {
@@ -219,6 +268,11 @@ func runStackBFS(ctx *report.Ctx, maxLive, maxDepth int) {
 	for depth := 0; len(frontier) > 0 && depth <= maxDepth; depth++ {
 		var next []node
 		for _, nd := range frontier {
+			if ctx.Expired() {
+				ctx.Capped("deadline in K")
+				return
+			}
+			ctx.Progress.Add(1)
 			s, model, _, mm := applyStack(nd.hist)
 			if mm != "" {
 				continue
@@ -246,7 +300,10 @@ func runStackBFS(ctx *report.Ctx, maxLive, maxDepth int) {
 					continue
 				}
 				h := append(append([]int{}, nd.hist...), op)
-				_, _, _, mm := applyStack(h)
+				s2, model2, _, mm := applyStack(h)
+				if mm == "" {
+					mm = drainStack(s2, model2) // the whole observable state after the transition
+				}
 				transitions++
 				ctx.AddEvals(1, b2i(len(model) > 0))
 				if mm != "" && mm != "END" {
@@ -346,10 +403,10 @@ func runC20(ctx *report.Ctx) {
 	// the container searches are small: worker 0 runs the queue, worker 1 the stack; a replay of a
 	// container violation re-runs the search (it is deterministic and takes well under a second)
 	if (ctx.Replay == nil && ctx.ShardIndex == 0) || (ctx.Replay != nil && ctx.Replay.Part == "Q") {
-		runQueueBFS(ctx, 32)
+		runQueueBFS(ctx, report.Pick(ctx, 136, 300))
 	}
 	if (ctx.Replay == nil && ctx.ShardIndex == 1%ctx.ShardCount) || (ctx.Replay != nil && ctx.Replay.Part == "K") {
-		runStackBFS(ctx, 7, 12)
+		runStackBFS(ctx, report.Pick(ctx, 140, 600), 1<<30)
 	}
 	alphabet := []string{"a", "1", " ", "\n", "\t", "-", ">", "<", "{", "}", "#", "=", ":", "\\", "/", "\"", "$", "(", "\xc3\xa9", "\r"}
 	maxLen := report.Pick(ctx, 4, 5)
